@@ -146,7 +146,7 @@ CLAIMS['C06'] = dict(
 CLAIMS['C12'] = dict(
     level='proof',
     text=('All 12 signed integer printers (from_int cores, ST::format\'s numeric renderer, string_stream <<) are interpreted with the value '
-          'free over its whole type: the term handed to the digit generator (uint_formatter::format, or any function recognised by its divide-by-radix loop) equals |value| in the generator's own width on every path, a caller that passes a position inside its own buffer leaves room for one unit per bit of the magnitude (a path that renders without the '
+          'free over its whole type: the term handed to the digit generator (uint_formatter::format, or any function recognised by its divide-by-radix loop) equals |value| in the width the generator takes on every path, a caller that passes a position inside its own buffer leaves room for one unit per bit of the magnitude (a path that renders without the '
           'digit generator may not have written fewer characters than the value needs in the radix), no signed operation on the '
           'way can overflow (witness: the most negative value) and no abs() family call exists; the digit loop of every uint_formatter<U> '
           'is summarised per iteration (value := value / radix, one unit stored backwards, from index digits of a digits+1 buffer) which '
